@@ -69,6 +69,8 @@ def gen_value(rng):
         return rng.pick(['x', 'ab', 'Hello'])
     if k < .9:
         return rng.chance(.5)
+    if k < .94:
+        return {'blank': 1}     # the cell is emptied
     return {'e': rng.pick(['#N/A', '#DIV/0!', '#VALUE!', '#NUM!', '#REF!'])}
 
 
@@ -343,16 +345,21 @@ def generate(seed, tier):
 
 
 # ------------------------------------------------------------------- execute
-def to_lib(v):
+def to_lib(v, top=True):
     """Trace value -> library value."""
     from formulas.tokens.operand import Error
     if isinstance(v, dict) and 'nd' in v:
         import numpy as np
         return np.array(v['v'], dtype=v['nd'])
+    if isinstance(v, dict) and 'blank' in v:
+        import schedula as sh
+        # (a bare sh.EMPTY is schedula's "no value" and is refused as an
+        # input; a blank cell is the 1x1 array holding it)
+        return [[sh.EMPTY]] if top else sh.EMPTY
     if isinstance(v, dict):
         return Error.errors[v['e']]
     if isinstance(v, list):
-        return [[to_lib(x) for x in row] for row in v]
+        return [[to_lib(x, False) for x in row] for row in v]
     return v
 
 
